@@ -381,9 +381,75 @@ func (r *rewriter) run() {
 		return true
 	}, nil)
 
+	// 1b. variables declared outside a goroutine literal and assigned inside it: every plain
+	// assignment to one of them, anywhere in the file, is reported to the happens-before layer
+	shared := map[types.Object]bool{}
+	ast.Inspect(f, func(n ast.Node) bool {
+		g, ok := n.(*ast.GoStmt)
+		if !ok {
+			return true
+		}
+		lit, ok := g.Call.Fun.(*ast.FuncLit)
+		if !ok {
+			return true
+		}
+		mark := func(e ast.Expr) {
+			id, ok := e.(*ast.Ident)
+			if !ok || id.Name == "_" {
+				return
+			}
+			v, ok := r.info.Uses[id].(*types.Var)
+			if !ok || v.IsField() {
+				return
+			}
+			if v.Pos() >= lit.Pos() && v.Pos() < lit.End() {
+				return
+			}
+			shared[v] = true
+		}
+		ast.Inspect(lit.Body, func(m ast.Node) bool {
+			switch s := m.(type) {
+			case *ast.AssignStmt:
+				if s.Tok != token.DEFINE {
+					for _, l := range s.Lhs {
+						mark(l)
+					}
+				}
+			case *ast.IncDecStmt:
+				mark(s.X)
+			}
+			return true
+		})
+		return true
+	})
+	sharedWrites := func(lhs []ast.Expr) []ast.Stmt {
+		var out []ast.Stmt
+		for _, l := range lhs {
+			if id, ok := l.(*ast.Ident); ok {
+				if v, ok := r.info.Uses[id].(*types.Var); ok && shared[v] {
+					out = append(out, &ast.ExprStmt{X: r.simrtCall("VarW", &ast.UnaryExpr{Op: token.AND, X: ast.NewIdent(id.Name)})})
+					r.st["shared-var.write"]++
+				}
+			}
+		}
+		return out
+	}
+
 	// 2. statements and expressions (post-order so that inner nodes are rewritten first)
 	astutil.Apply(f, nil, func(c *astutil.Cursor) bool {
 		switch n := c.Node().(type) {
+		case *ast.AssignStmt:
+			if n.Tok != token.DEFINE && c.Index() >= 0 && len(shared) > 0 {
+				if pre := sharedWrites(n.Lhs); len(pre) > 0 {
+					c.Replace(&ast.BlockStmt{List: append(pre, n)})
+				}
+			}
+		case *ast.IncDecStmt:
+			if c.Index() >= 0 && len(shared) > 0 {
+				if pre := sharedWrites([]ast.Expr{n.X}); len(pre) > 0 {
+					c.Replace(&ast.BlockStmt{List: append(pre, n)})
+				}
+			}
 		case *ast.GoStmt:
 			c.Replace(r.rewriteGo(n))
 			r.st["go"]++
